@@ -128,7 +128,7 @@ let () =
            let t = ni () in let k = ni () in
            let h = List.init t (fun _ ->
                let x = nflist nd in let e = nflist nd in let o = nflist nd in
-               { i_x = x; i_e = e; i_o = o; i_j = List.init nd (fun _ -> 0.0); i_boundary = false; i_apply = true }) in
+               { i_x = x; i_e = e; i_o = o; i_j = List.init nd (fun _ -> 0.0); i_boundary = false; i_apply = true; i_w = List.init nd (fun _ -> 0.0) }) in
            let nq = ni () in
            let queries = List.init nq (fun _ -> List.init nd (fun _ -> nz ())) in
            let rec nat_of_int n = if n <= 0 then O else S (nat_of_int (n - 1)) in
